@@ -170,6 +170,7 @@ impl Prop for C20 {
             hcfg.with_db = m_on;
             let mut tcp = Sut::new(&tcfg).map_err(|e| Violation::new("harness-error", "", e))?;
             let mut http = Sut::new(&hcfg).map_err(|e| Violation::new("harness-error", "", e))?;
+            #[allow(unused_mut)]
             let mut crossed = false;
             for (i, p) in s.trace.iter().enumerate() {
                 clock::advance_to_ns(p.t);
